@@ -58,6 +58,23 @@ def run_api(ctx, exe, jobs, tag, nproc=8, timeout=3600):
     return inject_api_fault(res)
 
 
+def vary_builder_order(jobs, seed):
+    """every options value of every call gets a (seed-dependent) order of the builder methods; the meaning does not depend on it"""
+    import random as _r
+    rnd = _r.Random(seed)
+    steps = ["ns", "sub", "const_map", "const", "var"]
+    for j in jobs:
+        for c in j["calls"]:
+            o = c.get("opts")
+            if isinstance(o, dict) and "order" not in o:
+                p = steps[:]
+                rnd.shuffle(p)
+                o["order"] = p
+                if "buckets" in o and rnd.random() < 0.5:
+                    o["buckets_first"] = True
+    return jobs
+
+
 def kind(r):
     """outcome class of one call result"""
     if "ok" in r:
